@@ -149,4 +149,4 @@ def cases(ctx):
         frame = P.build(shapes[host], rng)
         p = rng.choice(props)
         out.append(Case(P.pkt_line(frame, [f"S{p}={wire.s(t)}", f"G{p}", "W", "R", f"G{p}"]), ("property", kind, tag)))
-    return P.with_fix(ctx, out)
+    return P.with_witnesses(ctx, out)
